@@ -5,7 +5,168 @@ use crate::core::{Ctx, Outcome};
 use crate::gen::{CfgOpts, InOpts};
 use crate::oracle::rice;
 use flacenc::component::{Residual, SubFrame};
-use proptest::strategy::Strategy;
+use proptest::prelude::*;
+use serde::{Deserialize, Serialize};
+
+/// Direct call of the public residual encoder `coding::encode_residual` with a generated error signal.
+#[derive(Debug, Clone, Serialize, Deserialize)]
+pub struct DirectCase {
+    pub block: usize,
+    pub warmup: usize,
+    pub max_p: usize,
+    /// the error signal is made of 2^seg_log2 segments (shifted by `shift` samples so that they need not coincide with partitions)
+    pub seg_log2: u8,
+    pub shift: u16,
+    /// log2 scale per segment (cycled)
+    pub scales: Vec<u8>,
+    /// 0 uniform, 1 two-sided geometric, 2 magnitudes exactly 2^s-1 / 2^s (parameter ties), 3 sparse outliers on zeros, 4 one outlier only
+    pub model: u8,
+    pub seed: u64,
+}
+
+impl DirectCase {
+    pub fn errors(&self) -> Vec<i32> {
+        let mut r = crate::util::Sm64::new(self.seed);
+        let nseg = 1usize << self.seg_log2;
+        let seglen = (self.block / nseg).max(1);
+        let lim = i32::MAX as i64;
+        let one = r.below(self.block as u64) as usize;
+        (0..self.block)
+            .map(|t| {
+                if t < self.warmup {
+                    return 0;
+                }
+                let seg = ((t + self.shift as usize) / seglen) % self.scales.len().max(1);
+                let s = *self.scales.get(seg).unwrap_or(&0) as u32;
+                let m: i64 = 1i64 << s.min(31);
+                let u = r.next();
+                let mag = match self.model {
+                    0 => (u >> 8) as i64 % (m + 1),
+                    1 => {
+                        // geometric-like: m * -ln(x)
+                        let x = ((u >> 11) as f64 + 1.0) / (1u64 << 53) as f64;
+                        ((m as f64) * -x.ln() * 0.7) as i64
+                    }
+                    2 => m - ((u >> 9) & 1) as i64,
+                    3 => {
+                        if (u >> 12) % 37 == 0 {
+                            m
+                        } else {
+                            ((u >> 20) & 1) as i64
+                        }
+                    }
+                    _ => {
+                        if t == one.max(self.warmup) {
+                            m
+                        } else {
+                            0
+                        }
+                    }
+                };
+                let mag = mag.clamp(0, lim);
+                (if u & 1 == 1 { -mag } else { mag }) as i32
+            })
+            .collect()
+    }
+    fn fp(&self) -> u64 {
+        crate::util::fnv_str(&format!("{self:?}"))
+    }
+}
+
+pub fn direct_strategy() -> BoxedStrategy<DirectCase> {
+    let block = prop_oneof![
+        3 => 64usize..=600,
+        2 => (1usize..=511).prop_map(|k| k * 64),
+        2 => proptest::sample::select(vec![64usize, 128, 256, 512, 1024, 2048, 4096, 8192, 16384, 192, 384, 576, 768, 1152, 1536, 2304, 4608, 9216, 18432, 32704, 32767, 32640, 24576, 12288]),
+        1 => 64usize..=32767,
+    ];
+    let maxp = prop_oneof![3 => Just(14usize), 2 => 0usize..=14, 1 => 0usize..=3];
+    (block, 0usize..=32, maxp, 0u8..=7, any::<u16>(), proptest::collection::vec(0u8..=30, 1..=9), 0u8..=4, any::<u64>(), any::<bool>())
+        .prop_map(|(block, warmup, max_p, seg_log2, shift, mut scales, model, seed, cap)| {
+            if cap {
+                // keep most minima below 2^28: a sample costs about 2^(s - max_p) bits
+                for s in scales.iter_mut() {
+                    *s = (*s).min(max_p as u8 + 10);
+                }
+            }
+            DirectCase { block, warmup: warmup.min(block), max_p, seg_log2, shift: shift % block as u16, scales, model, seed }
+        })
+        .boxed()
+}
+
+pub fn check_direct(case: &DirectCase) -> Outcome {
+    let mut out = Outcome::new(case.fp());
+    out.class(format!("direct:maxp:{}", case.max_p));
+    out.class(format!("direct:model:{}", case.model));
+    let errors = case.errors();
+    let mut cfg = flacenc::config::Prc::default();
+    cfg.max_parameter = case.max_p;
+    let res = match crate::util::catch(|| flacenc::verif_access::encode_residual(&cfg, &errors, case.warmup)) {
+        Ok(r) => r,
+        Err(p) => {
+            // a panic of the residual encoder on an in-range error signal: the residual cannot be judged;
+            // reported, because "the encoder emits" nothing that could be optimal
+            out.viol(format!("encode_residual-panic:{}", p.sig()), format!("block {} warmup {} max_p {}: {}", case.block, case.warmup, case.max_p, p.msg));
+            return out;
+        }
+    };
+    let (bits, vals) = emitted_bits(&res, case.block, case.warmup);
+    if vals.iter().zip(&errors[case.warmup..]).any(|(a, b)| *a != *b as i64) {
+        out.viol("direct:residual-values-differ", format!("block {} warmup {}: the Residual does not hold the error signal it was given", case.block, case.warmup));
+        return out;
+    }
+    let n = 1usize << res.partition_order();
+    if (0..n).any(|p| res.rice_parameter(p) > case.max_p) {
+        out.viol("direct:parameter-above-configured-maximum", format!("block {} warmup {} max_p {}", case.block, case.warmup, case.max_p));
+        return out;
+    }
+    let Some(opt) = rice::optimum(&vals, case.block, case.warmup, case.max_p) else {
+        out.class("skipped:no-search-space");
+        return out;
+    };
+    if rice::finest_order(case.block, case.warmup).map_or(false, |f| res.partition_order() > f) || case.block % n != 0 {
+        out.viol("direct:partition-order-outside-search-space", format!("block {} warmup {} order {}", case.block, case.warmup, res.partition_order()));
+        return out;
+    }
+    out.class(format!("direct:orders:{}", opt.orders.min(10)));
+    if opt.saturating {
+        out.class("direct:finest-cost-saturates-2^28");
+    }
+    if opt.bits >= (1 << 28) {
+        out.class("skipped:optimum>=2^28");
+        return out;
+    }
+    // "every residual the encoder emits": a FIXED/LPC subframe is only emitted when it is smaller than the verbatim
+    // subframe (8 + width x block bits, width <= 25 for a 24-bit side channel). A residual above that bound is never
+    // emitted whatever the rest of the subframe costs, so its parameters are outside the property (this is where a
+    // per-partition cost >= 2^32 wraps in the u32 cost tables; the encoder then falls back to verbatim).
+    if bits > 25 * case.block as u64 + 8 {
+        out.class("direct:skipped:not-emittable(>verbatim)");
+        return out;
+    }
+    if bits > opt.bits {
+        let params: Vec<usize> = (0..n.min(8)).map(|p| res.rice_parameter(p)).collect();
+        out.viol(
+            "rice-nonoptimal:direct",
+            format!(
+                "encode_residual: emitted {bits} bits (partition order {}, parameters {:?}..) but the search space has {} bits (order {}); block {}, warm-up {}, max_parameter {}",
+                res.partition_order(), params, opt.bits, opt.order, case.block, case.warmup, case.max_p
+            ),
+        );
+        return out;
+    }
+    if opt.orders >= 2 && (opt.order > 0 || opt.varied) {
+        out.nontrivial = true;
+        out.class("direct:optimum:multi-partition");
+    }
+    if opt.order as usize + 1 == opt.orders && opt.orders > 1 {
+        out.class("direct:optimum-at-finest-order");
+    }
+    if opt.bits >= (1 << 24) {
+        out.class("direct:optimum>=2^24");
+    }
+    out
+}
 
 /// Coded size of a residual computed from its parameters and values (u64 arithmetic, independent of count_bits).
 fn emitted_bits(r: &Residual, block: usize, order: usize) -> (u64, Vec<i64>) {
@@ -100,13 +261,17 @@ pub fn run(ctx: &Ctx) {
     ctx.rule(
         "cases = streams from (valid config, input weighted to 20/24-bit content, bursts, block sizes with many factors of two); every FIXED/LPC residual's coded size (from its parameters and values) \
          must equal the brute-force minimum over partition orders 0..=finest and parameters 0..=max_parameter when that minimum < 2^28; \
-         non-trivial = search space with >= 2 partition orders whose optimum is not (order 0, one parameter)",
+         non-trivial = search space with >= 2 partition orders whose optimum is not (order 0, one parameter). \
+         Family `direct` calls the public residual encoder coding::encode_residual on generated error signals (block 64..=32767, warm-up 0..=32, max_parameter 0..=14, \
+         segments of differing scale 2^0..2^30 that need not coincide with partitions, uniform / geometric / tie / sparse / single-outlier models) with the same oracle, \
+         plus: the Residual holds exactly the given errors, no parameter above the configured maximum, partition order inside the search space",
     );
     let per = ctx.tier.scale(3000, 8);
     let co = CfgOpts { allow_multithread: false, max_block: 8192, ..Default::default() };
     let io = InOpts { heavy: true, wide_bias: true, ..Default::default() };
     ctx.search("heavy-pow2", 16, per, &|| stream_case_strategy(co, io, false).prop_map(pow2), check);
     ctx.search("general", 16, per, &|| stream_case_strategy(co, InOpts::default(), false), check);
+    ctx.search("direct", 16, ctx.tier.scale(6000, 10), &direct_strategy, check_direct);
     if ctx.tier == crate::core::Tier::Thorough {
         crate::fuzzrun::campaign(ctx, "fz_encode", 8, crate::fuzzrun::runs(30_000), 24_000);
     }
@@ -124,6 +289,9 @@ fn pow2(mut c: StreamCase) -> StreamCase {
 }
 
 pub fn replay(path: &str) -> Result<Outcome, String> {
-    let (_k, case): (String, StreamCase) = crate::core::load_replay(path)?;
-    Ok(check(&case))
+    let (kind, case) = crate::core::replay_kind(path)?;
+    match kind.as_str() {
+        "direct" => Ok(check_direct(&serde_json::from_value(case).map_err(|e| e.to_string())?)),
+        _ => Ok(check(&serde_json::from_value(case).map_err(|e| e.to_string())?)),
+    }
 }
